@@ -9,7 +9,10 @@ props = [json.loads(l)["id"] for l in open(os.path.join(VERIF, "properties.jsonl
 na = json.load(open(os.path.join(VERIF, "harness", "not_applicable.json")))
 checks = []
 claimed = set()
-for f in sorted(glob.glob(os.path.join(VERIF, "harness", "props", "c[0-9]*.py"))):
+claimed_list = [l.strip() for l in open(os.path.join(VERIF, "harness", "claimed.txt")) if l.strip() and not l.startswith("#")]
+for f in sorted(glob.glob(os.path.join(VERIF, "harness", "props", "c[0-9][0-9].py"))):
+    if os.path.basename(f)[:-3].upper() not in claimed_list:
+        continue
     m = importlib.import_module(os.path.basename(f)[:-3])
     M = m.META
     pid = M["id"]
